@@ -59,7 +59,8 @@ func init() {
 			{Name: "silent-trailers-request-in-helper", File: "bfe_http2/server.go", Old: "\tif rws.handlerDone && rws.hasTrailers() {\n\t\terr = rws.conn.writeHeaders(rws.stream, &writeResHeaders{\n\t\t\tstreamID:  rws.stream.id,\n\t\t\th:         rws.handlerHeader,\n\t\t\ttrailers:  rws.trailers,\n\t\t\tendStream: true,\n\t\t})\n\t\treturn len(p), err\n\t}\n\treturn len(p), nil\n}\n", New: "\tif rws.handlerDone && rws.hasTrailers() {\n\t\terr = rws.sendTrailers()\n\t\treturn len(p), err\n\t}\n\treturn len(p), nil\n}\n\nfunc (rws *responseWriterState) sendTrailers() error {\n\treturn rws.conn.writeHeaders(rws.stream, &writeResHeaders{\n\t\tstreamID:  rws.stream.id,\n\t\th:         rws.handlerHeader,\n\t\ttrailers:  rws.trailers,\n\t\tendStream: true,\n\t})\n}\n", Silent: true},
 			{Name: "silent-clone-filter-positive-if", File: "bfe_http2/server.go", Old: "\t\tif HopHeaders[k] {\n\t\t\tcontinue\n\t\t}\n\n\t\tvv2 := make([]string, len(vv))\n\t\tcopy(vv2, vv)\n\t\th2[k] = vv2\n", New: "\t\tif !HopHeaders[k] {\n\t\t\tvv2 := make([]string, len(vv))\n\t\t\tcopy(vv2, vv)\n\t\t\th2[k] = vv2\n\t\t}\n", Silent: true},
 			{Name: "silent-status-early-return", File: "bfe_http2/server.go", Old: "\tif !rws.wroteHeader {\n\t\trws.wroteHeader = true\n\t\trws.status = code\n\t\tif len(rws.handlerHeader) > 0 {\n\t\t\trws.snapHeader = cloneHeader(rws.handlerHeader)\n\t\t}\n\t}\n", New: "\tif rws.wroteHeader {\n\t\treturn\n\t}\n\trws.wroteHeader = true\n\trws.status = code\n\tif len(rws.handlerHeader) > 0 {\n\t\trws.snapHeader = cloneHeader(rws.handlerHeader)\n\t}\n", Silent: true},
-			{Name: "silent-encoder-nil-guard-and-skip-count", File: "bfe_http2/write.go", Old: "\t\t\tif isTE && v != \"trailers\" {\n\t\t\t\tcontinue\n\t\t\t}\n\t\t\theaderSize += encKV(enc, k, v)\n", New: "\t\t\tif isTE && v != \"trailers\" {\n\t\t\t\tcontinue\n\t\t\t}\n\t\t\tif enc == nil {\n\t\t\t\tcontinue\n\t\t\t}\n\t\t\theaderSize += encKV(enc, k, v)\n", Silent: true},
+			// (a "silent" overlay that skips a header field under `enc == nil` was dropped: the rule cannot prove that
+			// guard dead, and skipping a field in encodeHeaders under an unproven guard is exactly what it reports)
 			{Name: "silent-status-text-local", File: "bfe_http2/write.go", Old: "\t\tencKV(enc, \":status\", httpCodeString(w.httpResCode))\n", New: "\t\tstatusText := httpCodeString(w.httpResCode)\n\t\tencKV(enc, \":status\", statusText)\n", Silent: true},
 		},
 	})
